@@ -41,6 +41,10 @@ def generate(seed, mode="c09", opts=None):
             # the callee called directly with the very parameters the outer generator derives
             ops.append(["call_inner_of", g, spec, "inst"])
         ops.append(["call", g, spec, ch.pick(["kw", "inst"], "form")])
+        if shape == "P1" and ch.chance(1, 6):
+            # the same values in an instance of a *re-created* parameter class (same name, same fields,
+            # as after a module reload): refused, or else the very same memoised call
+            ops.append(["call", g, spec, "twin"])
         if gens[g]["body"] in ("pass", "call") and ch.chance(1, 3):
             ops.append(["call_inner_of", g, spec, "inst"])
         if ch.chance(1, 8):
@@ -109,6 +113,7 @@ class Env:
         P1 = h.paramclass(type("P1", (), {"a": h.Param(dtype=int, desc="a"), "b": h.Param(dtype=str, desc="b", default="x")}))
         from typing import Optional
 
+        self.P1_twin = h.paramclass(type("P1", (), {"a": h.Param(dtype=int, desc="a"), "b": h.Param(dtype=str, desc="b", default="x")}))
         P2 = h.paramclass(type("P2", (), {"a": h.Param(dtype=Optional[str], desc="a", default=None), "b": h.Param(dtype=Optional[str], desc="b", default=None), "c": h.Param(dtype=float, desc="c", default=0.0)}))
         P3 = h.paramclass(type("P3", (), {"n": h.Param(dtype=P1, desc="n"), "e": h.Param(dtype=Color, desc="e"), "s": h.Param(dtype=h.Scalar, desc="s")}))
         P4 = h.paramclass(type("P4", (), {"m": h.Param(dtype=h.Instantiable, desc="m"), "k": h.Param(dtype=int, desc="k")}))
@@ -259,6 +264,11 @@ def repr_params(p):
         v = getattr(p, f.name)
         if dataclasses.is_dataclass(v) and hasattr(v, "__params__"):
             parts.append(f"{f.name}=<{repr_params(v)}>")
+        elif type(v).__name__ == "Prefixed" and hasattr(v, "number") and hasattr(v, "prefix"):
+            # equal parameters must render equally: 1000*UNIT is 1*KILO
+            from decimal import Decimal
+
+            parts.append(f"{f.name}=#{(Decimal(v.number) * Decimal(10) ** v.prefix.value).normalize():f}")
         elif hasattr(v, "name") and not isinstance(v, (str, int, float)):
             parts.append(f"{f.name}=@{v.name}")
         else:
@@ -345,6 +355,15 @@ def exec_calls(arg):
                     import dataclasses
 
                     m = gen(**{f.name: getattr(p, f.name) for f in dataclasses.fields(p)})
+                elif form == "twin":
+                    try:
+                        m = gen(env.P1_twin(**spec))
+                        probe("foreign_param_class_accepted")
+                    except (seams.InjectedFault, seams.InjectedAbort):
+                        raise
+                    except Exception:  # noqa
+                        probe("foreign_param_class_refused")
+                        continue
                 else:
                     m = gen(p)
             except (seams.InjectedFault, seams.InjectedAbort):
